@@ -167,6 +167,12 @@ class Session:
                 return {"ok": True}
             if kind == "audit":
                 return {"audit": self.audit()}
+            if kind == "forget":
+                # the caller drops its last reference: the object is freed and its address may be reused
+                import gc
+                self.objs.pop(op["h"], None)
+                gc.collect()
+                return {"ok": True}
             if kind == "snapshot":
                 o = self.resolve(op["h"])
                 s = o.to_b64()
